@@ -18,7 +18,6 @@ import (
 	"go.6river.tech/mmmbbb/ent/snapshot"
 	"go.6river.tech/mmmbbb/ent/subscription"
 	"go.6river.tech/mmmbbb/grpc/pubsubpb"
-	"go.6river.tech/mmmbbb/internal/sqltypes"
 	"go.6river.tech/mmmbbb/services"
 	"google.golang.org/grpc/codes"
 	"google.golang.org/grpc/status"
@@ -651,11 +650,16 @@ func (w *World) execInner(op Op, res *Result) string {
 		res.Err, res.Resp = err, errClass(err)
 		return hdr("delete_snap") + " name=" + Enc(SnapName(op.Snap))
 	case "set_delay":
-		// what controllers/delay-injector.go PutDelay does inside its transaction
-		n, err := w.Client.Subscription.Update().SetDeliveryDelay(sqltypes.Interval(op.D)).
-			Where(subscription.Name(SubName(op.Sub)), subscription.DeletedAtIsNil()).Save(w.Ctx)
-		if err == nil && n == 0 {
+		// through the real controller (controllers/delay-injector.go): PUT /delays/<subscription>, and for a
+		// delay of 0 in every other call DELETE /delays/<subscription>
+		w.nSetDelay++
+		code, body, err := putDelay(w.Client, SubName(op.Sub), op.D, w.nSetDelay%2 == 0)
+		switch {
+		case err != nil:
+		case code == 404:
 			err = actions.ErrNotFound
+		case code != 200 && code != 204:
+			err = fmt.Errorf("delay injector answered %d: %s", code, body)
 		}
 		res.Err, res.Resp = err, errClass(err)
 		return hdr("set_delay") + fmt.Sprintf(" sub=%s d=%d", Enc(SubName(op.Sub)), op.D)
